@@ -230,4 +230,103 @@ theorem payloads_never_abort (args : Args) (legacy : Bool) (kl : Option Keylog.S
 
 end NeverAborts
 
+-- ====================================================================== 3. information-removing faults: the victim exports a prefix
+section Prefix
+open TLX.Props.C01Pipeline
+
+/-- TLS: if the TLS-relevant TCP packets of `xs'` are the first ones of `xs` and both runs end with the same key log, then
+    conversation by conversation (creation order) the frames of `xs'` are a frame-by-frame prefix of those of `xs`;
+    conversations that start later are absent. (`ExportProps.export_cut_prefix_tls_items` is the case `xs' = xs.take n`.) -/
+theorem tls_prefix_of_view (o : Opts) (fk fk' : Option (List Keylog.Key)) (xs' xs : List (Item Keylog.Key))
+    (hv : tcpView o xs' <+: tcpView o xs) (hk : keysOf fk' xs' = keysOf fk xs) :
+    ListExt (fun fa fb : List Pipeline.OutPkt => fa <+: fb) (tlsFrames H P info o fk' xs') (tlsFrames H P info o fk xs) := by
+  have h := tlsRun_prefix_ext (Pipeline.tlsMachine H P info) o [] hv
+  have hc : ListExt ConnCut (tlsConvs H P info o xs') (tlsConvs H P info o xs) := by
+    have : ∀ {x y : List (TlsSess Pipeline.Conn)}, ListExt (SessExt (Pipeline.tlsMachine H P info)) x y →
+        ListExt ConnCut x y := by
+      intro x y hxy
+      induction hxy with
+      | nil t => exact .nil _
+      | cons r _ ih => exact .cons (connCut_of_ext H P info r) ih
+    exact this h
+  unfold tlsFrames
+  rw [hk]
+  refine ListExt.map _ _ ?_ hc
+  intro a b ⟨_, _, k, hk'⟩
+  obtain ⟨fa, fb, h1, h2, h3⟩ := connOut_take_prefix H P info b.st (keysOf fk xs) k
+  simp only [convFrames, hk', h1, h2, Option.getD_some]
+  exact h3
+
+/-- the fault `cut-after` of harness/c03.py: from position `n` of the capture on, the victim's packets are missing (the
+    capture of the victim flow ends mid-connection); everything else — other flows, secrets blocks — stays -/
+def cutVictim (victim : Pkt → Bool) (n : Nat) (C : List (Item Keylog.Key)) : List (Item Keylog.Key) :=
+  C.take n ++ only (fun p => !victim p) (C.drop n)
+
+theorem only_append {κ : Type} (keep : Pkt → Bool) (a b : List (Item κ)) : only keep (a ++ b) = only keep a ++ only keep b := by
+  simp [only]
+
+theorem only_only {κ : Type} (k₁ k₂ : Pkt → Bool) (xs : List (Item κ)) :
+    only k₁ (only k₂ xs) = only (fun p => k₁ p && k₂ p) xs := by
+  unfold only
+  rw [List.filter_filter]
+  congr 1
+  funext it
+  cases it <;> simp [Bool.and_comm]
+
+/-- the bystanders' capture is untouched by the fault -/
+theorem cutVictim_bystanders (victim : Pkt → Bool) (n : Nat) (C : List (Item Keylog.Key)) :
+    only (fun p => !victim p) (cutVictim victim n C) = only (fun p => !victim p) C := by
+  unfold cutVictim
+  rw [only_append, only_only]
+  have : (fun p => (!victim p) && !victim p) = fun p => !victim p := by funext p; cases victim p <;> rfl
+  rw [this, ← only_append, List.take_append_drop]
+
+theorem dsbOnly_cutVictim (victim : Pkt → Bool) (n : Nat) (C : List (Item Keylog.Key)) :
+    dsbOnly (cutVictim victim n C) = dsbOnly C := by
+  unfold cutVictim
+  have h1 : dsbOnly (C.take n ++ only (fun p => !victim p) (C.drop n)) =
+      dsbOnly (C.take n) ++ dsbOnly (only (fun p => !victim p) (C.drop n)) := by simp [dsbOnly]
+  have h2 : dsbOnly C = dsbOnly (C.take n) ++ dsbOnly (C.drop n) := by
+    rw [← ExportInputs.dsbOnly_append, List.take_append_drop]
+  rw [h1, dsbOnly_only, ← h2]
+
+/-- **C03, prefix clause, TLS victim, `cut-after`.** The victim: any set of frames (one TCP flow, or several); from
+    position `n` of the capture on its packets are missing. Then
+    * the capture restricted to the bystanders is THE SAME list of items as before (so is everything they export:
+      `export_bystander_unaffected_quic`, `ExportDemux.tls_frames_by_flow`),
+    * and, restricted to the victim, conversation by conversation the frames exported under the fault are a frame-by-frame
+      PREFIX of the frames exported without it — hence per direction a byte prefix of the exported plaintext
+      (`dirBytes_prefix`). The secrets blocks behind the cut are still read: no key-material hypothesis. -/
+theorem export_victim_cut_tls (o : Opts) (fk : Option (List Keylog.Key)) (C : List (Item Keylog.Key))
+    (victim : Pkt → Bool) (n : Nat) :
+    only (fun p => !victim p) (cutVictim victim n C) = only (fun p => !victim p) C ∧
+    ListExt (fun fa fb : List Pipeline.OutPkt => fa <+: fb)
+      (tlsFrames H P info o fk (only victim (cutVictim victim n C))) (tlsFrames H P info o fk (only victim C)) := by
+  refine ⟨cutVictim_bystanders victim n C, tls_prefix_of_view H P info o fk fk _ _ ?_ ?_⟩
+  · rw [tcpView_only, tcpView_only]
+    unfold cutVictim
+    have happ : ∀ a b : List (Item Keylog.Key), tcpView o (a ++ b) = tcpView o a ++ tcpView o b := by
+      intro a b; simp [tcpView]
+    have hC : tcpView o C = tcpView o (C.take n) ++ tcpView o (C.drop n) := by
+      rw [← happ, List.take_append_drop]
+    have hC' : tcpView o (C.take n ++ only (fun p => !victim p) (C.drop n)) =
+        tcpView o (C.take n) ++ (tcpView o (C.drop n)).filter (fun p => !victim p) := by
+      rw [← tcpView_only, happ]
+    rw [hC, hC', List.filter_append, List.filter_append, List.filter_filter]
+    have : (tcpView o (C.drop n)).filter (fun p => victim p && !victim p) = [] := by
+      rw [List.filter_eq_nil_iff]; intro p _; cases victim p <;> simp
+    rw [this, List.append_nil]
+    exact List.prefix_append _ _
+  · simp only [keysOf, dsbOnly_only, dsbOnly_cutVictim]
+
+/-- the bytes a frame list carries in one direction (`fromSrc`: the frames whose source endpoint is `e`) -/
+def dirBytes (e : Endpoint) (fs : List Pipeline.OutPkt) : Bytes := (fs.filter fun f => f.src == e).flatMap (·.payload)
+
+theorem dirBytes_prefix (e : Endpoint) {fa fb : List Pipeline.OutPkt} (h : fa <+: fb) : dirBytes e fa <+: dirBytes e fb := by
+  obtain ⟨t, rfl⟩ := h
+  simp only [dirBytes, List.filter_append, List.flatMap_append]
+  exact List.prefix_append _ _
+
+end Prefix
+
 end TLX.Props.ExportFaults
